@@ -33,6 +33,10 @@ type c12Case struct {
 
 func c12Addr(i int) string { return poolAddr(0x40 + i) }
 
+// c12GhostOwner owns ERC-20 allowance records but has no account any more: the state a contract leaves behind when it
+// approves a spender and later self-destructs.
+var c12GhostOwner = common.HexToAddress("0x6b05700000000000000000000000000000000001")
+
 func cpcInfo(name string) (cpcabi.CustomPrecompiledContractInfo, common.Address) {
 	switch name {
 	case "erc20":
@@ -56,6 +60,8 @@ func genAbiValue(t *rapid.T, typ abi.Type, label string, nv int) interface{} {
 			return common.HexToAddress(c12Addr(rapid.IntRange(0, 3).Draw(t, label+"c")))
 		case 3:
 			return common.Address{}
+		case 4:
+			return c12GhostOwner
 		default:
 			return chain.ValOperKey(0).Addr
 		}
@@ -219,6 +225,26 @@ func runC12(cs c12Case) *Outcome {
 			o.dev("", "setup block failed: %v", r.Err)
 			return o
 		}
+	}
+	// allowance records whose owner has no account (left behind by an owner that self-destructed), for every spender
+	// the argument generator can name
+	c.SetObserver(func(ob chain.Obs) {
+		if ob.Kind != "end" {
+			return
+		}
+		spenders := []common.Address{chain.ValOperKey(0).Addr}
+		for i := 0; i < 4; i++ {
+			spenders = append(spenders, chain.K(i).Addr, common.HexToAddress(c12Addr(i)))
+		}
+		for i, sp := range spenders {
+			c.App.CPCKeeper.SetErc20CpcAllowance(ob.Ctx, c12GhostOwner, sp, big.NewInt(int64(100+i)))
+		}
+	})
+	_, gerr := c.RunBlock(chain.Block{Dt: 5})
+	c.SetObserver(nil)
+	if gerr != nil {
+		o.dev("", "setup block failed: %v", gerr)
+		return o
 	}
 	snap := func(ctx sdk.Context) interface{} { return takeView(c, ctx) }
 	recs := runBlockPlans(c, []BlockPlan{{Dt: 5, Txs: []TxPlan{{Kind: "eth", From: 0, Type: 0, Gas: 30000000, CapOver: 1, To: c12Addr(0), Value: "0", Data: "01"}}}}, snap)
